@@ -307,6 +307,15 @@ INPUT_TASKS_CONTRACTS += [
              inputs={'self': it_obj(), 'key': S(Str, 'key'), 'value': S(ATaskU, 'value')},
              ensures={'registered': 'it_set_post'}, l0=['A-dict'], searchable=False),
 ]
+def it_index_raise(self, item, raised):
+    return all_of(raised == 'IndexError', any_of(item >= len(self.task_list), item < -len(self.task_list)))
+
+
+INPUT_TASKS_CONTRACTS += [
+    Contract(id='C10.inputs.get.index', target='taskchain.task:InputTasks.get', props={'C10': 'supporting'},
+             inputs={'self': it_obj(), 'item': S(Int, 'item'), 'default': Const(None)}, callees=_FIND_CALLEE,
+             ensures={'positional': 'it_index_post'}, ensures_raise={'out_of_range': 'it_index_raise'}, l0=['A-dict'], searchable=False),
+]
 if _os.environ.get('PYVC_INPUT_TASKS', '1') == '1':
     GET_TASK_CONTRACTS += INPUT_TASKS_CONTRACTS
 CONTRACTS += GET_TASK_CONTRACTS
